@@ -7,7 +7,7 @@
    Units are identified by their names. *)
 From Coq Require Import QArith String.
 From QV Require Import Rt.Prelude.
-Open Scope Q_scope.
+Local Open Scope Q_scope.
 
 Definition n_kelvin : ustring := us "Kelvin".
 Definition n_celsius : ustring := us "Degree Celsius".
